@@ -29,7 +29,8 @@ RULE = ('(a) BFS over histories of ops {connect, status, disconnect, '
         'networking thread), server kicks, server sends garbage} up to depth '
         '5 (quick) / 6 (thorough) x server plans (kind of the i-th TCP '
         'connection: ok / refuse / kick after join / disconnect during login '
-        '/ garbage after join) x exception handler that reconnects or not; '
+        '/ garbage after join / stalls inside a frame / sets compression) x '
+        'exception handler that reconnects or not; '
         'dedup on canonical system state + model state.  (b) all schedules '
         'with <= 2 (quick) / 3 (thorough) preemptions of two user threads '
         'issuing one or two lifecycle calls each, from start states {fresh, '
@@ -41,7 +42,8 @@ RULE = ('(a) BFS over histories of ops {connect, status, disconnect, '
         'disconnect called after every accepted start returned must leave '
         'nothing alive, an accepted connect called after every disconnect '
         'returned must yield a live play connection; further start states '
-        '{status() in flight, login / compression switch in flight, in play '
+        '{status() in flight, negotiation query unanswered by a silent server, '
+        'login / compression switch in flight, in play '
         'with a reconnecting exception handler, in play after a negotiated '
         'connect} with user disconnect(); connect() racing the networking '
         'thread and the server closing / kicking / sending garbage.  states = '
@@ -56,10 +58,10 @@ ASSUMPTIONS = ['canonical schedule for (a): a call issued without an '
 
 V = 757
 CANON = statehash.Canon(REPO, (__file__,))
-KINDS = ('ok', 'refuse', 'kick', 'loginkick', 'garbage', 'stall')
+KINDS = ('ok', 'refuse', 'kick', 'loginkick', 'garbage', 'stall', 'compress')
 PLANS = [('ok',), ('refuse', 'ok'), ('ok', 'refuse', 'ok'), ('kick', 'ok'),
          ('loginkick', 'ok'), ('garbage', 'ok'), ('ok', 'kick', 'refuse'),
-         ('stall', 'ok'), ('ok', 'stall')]
+         ('stall', 'ok'), ('ok', 'stall'), ('compress', 'ok')]
 OPS = ('connect', 'status', 'disc', 'disc_imm', 'settle', 'ka99', 'kick',
        'garbage')
 MAX_HANDLER_RECONNECTS = 2
@@ -145,7 +147,7 @@ class Model(object):
             self.exits += 1
             return self.stop()
         k = self.kind
-        if k == 'ok':
+        if k in ('ok', 'compress'):
             self.in_play = True
         elif k == 'stall':
             self.in_play = False    # alive, but stuck inside a frame
@@ -190,6 +192,7 @@ def body(W, plan, hr, history, final_probe=True, racing=False):
         i = len(W.net.conns) - 1 + W.net.refused
         kind = plan[min(i, len(plan) - 1)] if not W.force_ok else 'ok'
         login = {'ok': [('success',)], 'kick': [('success',)],
+                 'compress': [('compress', 64), ('success',)],
                  'garbage': [('success',)], 'stall': [('success',)],
                  'loginkick': [('disconnect', '{"text":"no"}')]}[kind]
         play = {'kick': [('disconnect', '{"text":"bye"}')],
@@ -561,6 +564,7 @@ NEGOTIATING = 'negotiating'
 ENCRYPTING = 'encrypting'      # connect() issued, server will ask for encryption
 STATUSING = 'statusing'        # status() issued, reply not yet processed
 PLAY_MULTI = 'play_multi'      # in play, every connect() negotiates the version
+SILENT = 'negotiating_silent'  # as NEGOTIATING, the first server never answers
 PLAY_HR = 'play_hr'            # in play; the exception handler reconnects
 LOGGING_IN = 'logging_in'      # connect() issued, login success not yet processed
 COMPRESSING = 'compressing'    # connect() issued, server will set compression
@@ -606,7 +610,8 @@ def sched_body(W, start, prog):
 
     # (from the multi-version play state the server runs the OLDER allowed
     # version: a fallback to the default version then shows)
-    SRV_V, SRV_NAME = (340, '1.12.2') if start in (PLAY_MULTI, NEGOTIATING) \
+    SRV_V, SRV_NAME = (340, '1.12.2') \
+        if start in (PLAY_MULTI, NEGOTIATING, SILENT) \
         else (V, '1.18.1')
 
     def factory(conn):
@@ -618,12 +623,15 @@ def sched_body(W, start, prog):
         srv = RefServer(conn, protoids.ids, W.rank, login=login,
                         rsa=harness.rsa_key(),
                         status={'json': status_json(protocol=SRV_V,
-                                                    name=SRV_NAME)})
+                                                    name=SRV_NAME),
+                                'silent': start == SILENT and
+                                not W.servers})
         W.servers.append(srv)
         return srv
     W.net.endpoints = Ep()
     conn = W.connection(allowed_versions={V, 340}
-                        if start in (NEGOTIATING, PLAY_MULTI) else {V},
+                        if start in (NEGOTIATING, PLAY_MULTI, SILENT)
+                        else {V},
                         handle_exception=lambda e, i: on_error(e),
                         handle_exit=lambda: exits.append(1))
     from minecraft.networking.packets import clientbound
@@ -668,6 +676,9 @@ def sched_body(W, start, prog):
             pass
     elif start in (NEGOTIATING, ENCRYPTING, LOGGING_IN, COMPRESSING):
         conn.connect()          # first packets sent, reply not yet processed
+    elif start == SILENT:
+        conn.connect()
+        W.settle()              # request delivered; the thread waits for a reply
     elif start == STATUSING:
         conn.status(handle_status=lambda s: None, handle_ping=lambda ms: None)
     viol = []
@@ -776,7 +787,7 @@ def sched_body(W, start, prog):
             srv_l.play(('keepalive', 4141))
             W.settle()
             alive = ('keepalive', 4141) in srv_l.play_rx
-        if alive and start in (PLAY_MULTI, NEGOTIATING) and \
+        if alive and start in (PLAY_MULTI, NEGOTIATING, SILENT) and \
                 srv_l.version != SRV_V:
             # observed, not judged (C16 says nothing about versions and C09
             # does not quantify over schedules, see DESIGN.md 9.3): the end
@@ -797,7 +808,7 @@ def sched_body(W, start, prog):
                   if v == 'ok' and k.split(':')[1] in ('connect', 'status',
                                                        'reconnect'))
     # (server-side triggers 'srv_*' are not calls of the client API)
-    if opened != okcalls and start not in (NEGOTIATING, PLAY_MULTI):
+    if opened != okcalls and start not in (NEGOTIATING, PLAY_MULTI, SILENT):
         viol.append(('tcp-count', '%d TCP connections were opened by %d '
                      'accepted connect()/status() calls (%r)'
                      % (opened, okcalls, results)))
@@ -885,6 +896,8 @@ QUICK_B[(NEGOTIATING, 'disc,connect')] = 1
 for _s in (LOGGING_IN, COMPRESSING, ENCRYPTING):
     QUICK_B[(_s, 'disc,connect')] = 1
 QUICK_B[(LOGGING_IN, 'disc')] = 1
+for _p in ('disc', 'disc_imm', 'disc,connect'):
+    QUICK_B[(SILENT, _p)] = 1
 PROGS['close||disc,connect'] = ([('srv_close',), ('disc',), ('connect',)], [])
 PROGS['garbage||disc,connect'] = ([('srv_garbage',), ('disc',), ('connect',)],
                                   [])
